@@ -211,6 +211,7 @@ static void Tree_Del(var self) {
 
 static void Tree_Assign(var self, var obj) {
   struct Tree* m = self;
+  if (self is obj) { return; }
   Tree_Clear(self);
   m->ktype = implements_method(obj, Get, key_type) ? key_type(obj) : Ref;
   m->vtype = implements_method(obj, Get, val_type) ? val_type(obj) : Ref;
